@@ -187,6 +187,112 @@ def fingerprint(res):
     return fp
 
 
+def _comp_arrays(fv, d):
+    return [getattr(fv, U.COMP[a]) for a in range(d)]
+
+
+def _e_u_flip(w, d):
+    for a in _comp_arrays(w.u, d):
+        a[...] = -a
+
+
+def _e_u_scale(w, d):
+    for a in _comp_arrays(w.u, d):
+        a *= 1.5
+
+
+def _e_u_zero(w, d):
+    for a in _comp_arrays(w.u, d):
+        a.flat[0] = 0.0
+        a.flat[-1] = -a.flat[-1]
+
+
+def _e_u_assign(w, d):
+    for ax, lab in enumerate(U.LABELS[w.spec["cls"]]):
+        setattr(w.u, lab + "value", -0.5 * np.array(getattr(w.u, U.COMP[ax])) + 0.125)
+
+
+def _e_u2_flip(w, d):
+    for a in _comp_arrays(w.u2, d):
+        a[...] = -a
+
+
+def _e_D_scale(w, d):
+    for a in _comp_arrays(w.D, d):
+        a *= 3.0
+
+
+def _e_phi_edit(w, d):
+    w.phi.value[...] = np.asarray(w.phi.value) * 1.5 + 0.25
+    w.phi.apply_BCs()
+
+
+def _e_phi_assign(w, d):
+    w.phi.value = np.asarray(w.phi.value)[::-1].copy() if d == 1 else np.asarray(w.phi.value) * -0.5
+    w.phi.apply_BCs()
+
+
+def _e_beta_edit(w, d):
+    w.beta.value[...] = np.asarray(w.beta.value) * 1.5
+    w.beta.apply_BCs()
+
+
+def _e_bc_edit(w, d):
+    w.bc.left.c[:] = np.asarray(w.bc.left.c) * 2.0 + 0.5
+    w.bc.right.b = np.asarray(w.bc.right.b) + 4.0
+    w.phi.apply_BCs()
+
+
+def _e_bc_ppm(w, d):
+    w.bc.left.c = np.asarray(w.bc.left.c) * (1.0 + 2.0 ** -18)
+    w.phi.apply_BCs()
+
+
+EDITS = {"u_flip": _e_u_flip, "u_scale": _e_u_scale, "u_zero": _e_u_zero, "u_assign": _e_u_assign, "u2_flip": _e_u2_flip,
+         "D_scale": _e_D_scale, "phi_edit": _e_phi_edit, "phi_assign": _e_phi_assign, "beta_edit": _e_beta_edit,
+         "bc_edit": _e_bc_edit, "bc_ppm": _e_bc_ppm}
+
+
+def _edit_case(case, res):
+    """call; edit an input in place the documented way; call again  ==  edit; call  (bit for bit).
+    The only difference between the two worlds is the earlier call: whatever a builder keeps from a
+    call (memoised splits, cached matrices keyed on object identity or on dirty flags) shows here."""
+    spec = case["grid"]
+    d = U.dim(spec["cls"])
+    gid = U.spec_id(spec)
+    ename = case["edit"]
+    F = res["findings"]
+    for name in MENU:
+        wa, wb = make_world(spec), make_world(spec)
+        try:
+            MENU[name](wa)
+            EDITS[ename](wa, d)
+            EDITS[ename](wb, d)
+            ra = MENU[name](wa)
+            rb = MENU[name](wb)
+        except Exception as e:  # noqa: BLE001
+            F.append({"key": "C15:edit_exception:%s:%s" % (name, ename), "msg": "%s / edit %s / %s on %s raises %s: %s"
+                      % (name, ename, name, gid, type(e).__name__, str(e)[:120]), "detail": {"grid": gid}})
+            continue
+        res["evals"] += 3
+        res["states"] += 3
+        res["transitions"] += 3
+        res["nontrivial"] += 1
+        if fingerprint(ra) != fingerprint(rb):
+            F.append({"key": "C15:stale_after_edit:%s:%s" % (name, ename),
+                      "msg": "%s called, inputs edited in place (%s), %s called again on %s: the second result is not the one a world "
+                             "without the first call gives for the edited inputs" % (name, ename, name, gid),
+                      "detail": {"grid": gid, "sequence": [name, "edit:" + ename, name]}})
+        if name in MAY_CHANGE:
+            continue
+        sa, sb = snapshot(wa), snapshot(wb)
+        if sa != sb:
+            changed = [n for n in sa[0] if sa[0][n] != sb[0].get(n)] + [n for n in sb[0] if n not in sa[0]] + [n for n in sa[0] if n not in sb[0]]
+            F.append({"key": "C15:edit_leaves_trace:%s:%s" % (name, ename),
+                      "msg": "%s / edit %s / %s on %s leaves the inputs different from a world without the first call: %s"
+                             % (name, ename, name, gid, changed[:4]), "detail": {"grid": gid}})
+
+
 def cases(tier):
     out = []
     L = 2 if tier == "quick" else 3
@@ -203,6 +309,9 @@ def cases(tier):
                     for b in names:
                         out.append({"grid": s, "first": [a, b]})
         out.append({"grid": U.spec(cls, SHAPES[d][0], ("I",) * d, 1), "reuse": True})
+        for shape in SHAPES[d]:
+            for e in EDITS:
+                out.append({"grid": U.spec(cls, shape, ("I",) * d, 1), "edit": e})
     return out
 
 
@@ -296,13 +405,25 @@ def run_case(case):
     seen = set()
     F = res["findings"]
     gid = U.spec_id(spec)
+    if case.get("edit"):
+        _edit_case(case, res)
+        res["outcomes"] = {"edit:%s" % ("ok" if not F else "viol"): 1}
+        res["sample"] = {"grid": gid, "edit": case["edit"]}
+        return res
     if case.get("reuse"):
         # terms built once and reused over k solves == terms rebuilt every step
         wa, wb = make_world(spec), make_world(spec)
         terms = [-pf.diffusionTerm(wa.D), pf.convectionUpwindTerm(wa.u), wa.M, wa.v]
         snap = fingerprint(terms)
+        lst = list(terms)
         for k in range(4):
-            pf.solvePDE(wa.sol, [pf.transientTerm(wa.sol, 0.25, 1.0)] + terms)
+            lst2 = [pf.transientTerm(wa.sol, 0.25, 1.0)] + terms
+            ids = [id(t) for t in lst2]
+            pf.solvePDE(wa.sol, lst2)
+            if [id(t) for t in lst2] != ids or len(lst) != len(terms):
+                F.append({"key": "C15:solvePDE_modifies_term_list", "msg": "solvePDE changed the list of terms it was given on %s (length %d -> %d)"
+                          % (gid, len(ids), len(lst2)), "detail": {}})
+                break
             pf.solvePDE(wb.sol, [pf.transientTerm(wb.sol, 0.25, 1.0), -pf.diffusionTerm(wb.D), pf.convectionUpwindTerm(wb.u),
                                  pf.linearSourceTerm(wb.beta), pf.constantSourceTerm(wb.beta)])
             res["evals"] += 2
